@@ -353,16 +353,16 @@ class Ctx:
     def analysed_func(self, f: Func):
         self.analysed.add(f"{f.module.name}.{f.qualname}")
 
-    def holds(self, rule, where, what, nontrivial=True, **detail):
+    def holds(self, rule, where, what, /, nontrivial=True, **detail):
         self.instances.append(Instance(rule, where, what, "holds", "", detail, nontrivial))
 
-    def violated(self, rule, where, what, key, **detail):
+    def violated(self, rule, where, what, key, /, **detail):
         """key: construct key (qualified function + normalised construct), never a line number."""
         if any(i.verdict == "violated" and i.rule == rule and i.key == key for i in self.instances):
             return  # the same construct reached on several paths is one finding
         self.instances.append(Instance(rule, where, what, "violated", key, detail, True))
 
-    def check(self, cond, rule, where, what, key=None, **detail):
+    def check(self, cond, rule, where, what, key=None, /, **detail):
         if cond:
             self.holds(rule, where, what, **detail)
         else:
